@@ -372,7 +372,26 @@ void check_value(int comp, const std::string& v, const std::string& protocol, vf
   if ((comp == SEARCH && v[0] == '?') || (comp == HASH && v[0] == '#')) return;
   if (comp == PATHNAME && !protocol.empty()) {}
   bool opaque_path_route = comp == PATHNAME && !(protocol.empty() || protocol == "http" || protocol == "https" || protocol == "ws" || protocol == "wss" || protocol == "ftp" || protocol == "file");
-  if (opaque_path_route) return;  // canonicalize an opaque pathname: checked by the enumeration vectors only
+  if (opaque_path_route) {
+    // "canonicalize an opaque pathname": the basic URL parser started in the OPAQUE PATH STATE
+    // on a dummy URL: TAB/LF/CR are removed, '?' / '#' end the path, every other code point is
+    // appended after C0-control percent-encoding.  Nothing is resolved or stripped: "/a/../b"
+    // stays "/a/../b" (written out here directly from the state's steps).
+    std::string kept;
+    for (char ch : v) if (ch != '\t' && ch != '\n' && ch != '\r') kept.push_back(ch);
+    size_t cut = kept.find_first_of("?#");
+    if (cut != std::string::npos) kept.resize(cut);
+    // a space in front of '?' / '#' / the end is where editions of the URL Standard differ
+    // (and ada parses without the dummy URL, which strips trailing C0-or-space): not asserted
+    if (kept.empty() || (unsigned char)kept.back() <= 0x20) { vf::tag_dynamic("not_asserted:opaque pathname ending in C0/space"); return; }
+    std::string expect_opaque = ref::utf8_percent_encode(kept, ref::in_c0_control_set);
+    auto got = h::canonicalize_opaque_pathname(v);
+    VF_TAG("opaque_pathname_checked");
+    if (!got || *got != expect_opaque) return c.fail(w + "canonicalize_opaque_pathname gives " + (got ? "\"" + vf::show(*got) + "\"" : "failure") + " but the opaque path state gives \"" + vf::show(expect_opaque) + "\"");
+    if (!pat) return c.fail(w + "constructing {protocol:\"" + protocol + "\", pathname:\"" + vf::show(esc) + "\"} fails although an opaque pathname never fails to canonicalise");
+    if (getter(*pat, comp) != escape_pattern(expect_opaque)) return c.fail(w + "pattern string is \"" + vf::show(getter(*pat, comp)) + "\" but escape(opaque canonical form) is \"" + vf::show(escape_pattern(expect_opaque)) + "\"");
+    return;
+  }
   if ((bool)pat != d.ok) return c.fail(w + "constructing {" + comp_name(comp) + ":\"" + vf::show(esc) + "\"} " + (pat ? "succeeds" : "fails") + " but the canonicaliser " + (d.ok ? "succeeds" : "fails"));
   if (!pat) return;
   std::string expect = escape_pattern(d.v);
@@ -422,6 +441,45 @@ void run_case(const uint8_t* data, size_t size, vf::Case& c) {
     }
     std::string v = vf::repair_utf8(b.rest());
     return check_value(comp, v, protocol, c);
+  }
+  if (mode % 6 == 5 && b.chance(64)) {
+    // ---- (E) "protocol component matches a special scheme" decides which pathname
+    // canonicaliser is used.  The protocol is a regexp group of scheme names in arbitrary
+    // letter case; it is always compiled with the DEFAULT options (never ignoreCase), so the
+    // decision is case-sensitive whatever options this or an earlier construction used.
+    static const char* names[] = {"http", "https", "ws", "wss", "ftp", "file", "foo", "data", "htt"};
+    unsigned nalt = 1 + b.below(3);
+    std::string group = "(";
+    bool special = false;
+    for (unsigned i = 0; i < nalt; i++) {
+      std::string alt = b.pick(names);
+      unsigned how = b.below(4);  // 0,1: as is; 2: upper; 3: random case
+      for (auto& ch : alt) if (how == 2 || (how == 3 && b.coin())) ch = (char)toupper((unsigned char)ch);
+      static const char* sp[] = {"http", "https", "ws", "wss", "ftp", "file"};
+      for (auto k : sp) special |= alt == k;
+      group += (i ? "|" : "") + alt;
+    }
+    group += ")";
+    unsigned order = b.below(3);  // which of the three option variants is constructed first
+    c.hash = vf::fnv1a(group, 0x15E + order);
+    c.nontrivial = true;
+    if (c.want_render) c.render = "URLPattern({protocol:\"" + group + "\", pathname:\"/a/../b\"}) with options none / ignoreCase:false / ignoreCase:true (first: " + std::to_string(order) + ")";
+    VF_TAG("protocol_group_special_scheme_decision");
+    VF_TAG_IF(special, "protocol_group_matches_special");
+    for (unsigned k = 0; k < 3; k++) {
+      unsigned variant = (order + k) % 3;
+      ada::url_pattern_init init;
+      init.protocol = group;
+      init.pathname = "/a/../b";
+      ada::url_pattern_options opts;
+      opts.ignore_case = variant == 2;
+      auto pat = ada::parse_url_pattern<provider>(std::move(init), nullptr, variant == 0 ? nullptr : &opts);
+      if (!pat) return c.fail("URLPattern({protocol:\"" + group + "\", pathname:\"/a/../b\"}) does not compile (options variant " + std::to_string(variant) + ")");
+      std::string expect = special ? "/b" : "/a/../b";
+      if (std::string(pat->get_pathname()) != expect)
+        return c.fail("URLPattern({protocol:\"" + group + "\", pathname:\"/a/../b\"}) (options variant " + std::to_string(variant) + ", constructed " + std::to_string(k) + ". in the case): pathname pattern is \"" + std::string(pat->get_pathname()) + "\" but the protocol " + (special ? "matches" : "does not match") + " a special scheme, so the Standard gives \"" + expect + "\"");
+    }
+    return;
   }
   if (mode % 6 == 5) {
     // ---- (C) constructor string == init dictionary, literal components
